@@ -120,7 +120,7 @@ Section Prov.
     match snd tv with
     | SV i => nth_error path i = Some (fst tv) /\ in_rect r (fst tv)
     | SI i => exists a b, seg_at i a b /\ (gi_result b a (fst tv) \/ gi_result a b (fst tv))
-    | SX i => exists a b, seg_at i a b /\ exists loc l', get_intersection_g gsi r a b loc default_pt = (false, l', fst tv)
+    | SX _ => False      (* only the legacy (pre-fix) mode produces it *)
     | SC _ => False
     end.
 
@@ -158,7 +158,7 @@ Section Prov.
   Qed.
 
   Lemma lines_loop_prov fuel : forall i loc rs out,
-    all_pts prov rs -> lines_loop gsi r path fuel i loc rs = Ok out -> all_pts prov out.
+    all_pts prov rs -> lines_loop gsi false r path fuel i loc rs = Ok out -> all_pts prov out.
   Proof.
     induction fuel as [|f IH]; intros i loc rs out H E; cbn [lines_loop] in E; [discriminate|].
     destruct (i <=? highI path)%nat; [|inversion E; subst; exact H].
@@ -177,10 +177,10 @@ Section Prov.
     { eapply IH; [|exact E]. apply add_all_pts; assumption. }
     destruct (negb (is_inside loc)).
     - destruct (get_intersection_g gsi r pp pi loc default_pt) as [[ok2 lx2] ip2] eqn:Eg2.
+      destruct ok2; [|eapply IH; eassumption].
       eapply IH; [|exact E]. apply add_all_pts; [exact Hip|]. apply add_all_pts; [|exact H1].
-      unfold prov; destruct ok2; cbn [fst snd]; exists pp, pi; (split; [exact Hseg|]).
-      + right. exists loc, default_pt, lx2. exact Eg2.
-      + exists loc, lx2. exact Eg2.
+      unfold prov; cbn [fst snd]; exists pp, pi; (split; [exact Hseg|]).
+      right. exists loc, default_pt, lx2. exact Eg2.
     - eapply IH; [|exact E]. apply add_all_pts; assumption.
   Qed.
 
@@ -213,7 +213,7 @@ Section Prov.
     - inversion E; subst. apply Nat.leb_gt in Ei. split; [lia|]. split; [intros; lia|]. left. exact Ei.
   Qed.
 
-  Lemma lines_internal_prov out : lines_internal gsi r path = Ok out -> all_pts prov out.
+  Lemma lines_internal_prov out : lines_internal gsi false r path = Ok out -> all_pts prov out.
   Proof.
     unfold lines_internal. intros E.
     destruct (rect_is_empty r || (length path <? 2)%nat) eqn:Ee; [inversion E; constructor|].
@@ -222,7 +222,7 @@ Section Prov.
     destruct (nth_error path 0) as [p0|] eqn:Ep0; [|discriminate].
     destruct (get_location r p0) as [b0 loc0] eqn:El0.
     assert (Hstart : forall loc, (is_inside loc = true -> in_rect r p0) ->
-              lines_loop gsi r path (main_fuel path) 1 loc (if is_inside loc then add (p0, SV 0) false [] else []) = Ok out ->
+              lines_loop gsi false r path (main_fuel path) 1 loc (if is_inside loc then add (p0, SV 0) false [] else []) = Ok out ->
               all_pts prov out).
     { intros loc Hin EL. eapply lines_loop_prov; [|exact EL].
       destruct (is_inside loc); [|constructor]. apply add_all_pts; [|constructor].
@@ -248,7 +248,7 @@ Section Prov.
     unfold rect_clip_lines_g, lines_one_t. intros E.
     destruct (rect_is_empty r); [inversion E; constructor|].
     destruct (negb (rect_intersects r (get_bounds path))); [inversion E; constructor|].
-    destruct (lines_internal gsi r path) as [rs|] eqn:Ei; [|discriminate].
+    destruct (lines_internal gsi false r path) as [rs|] eqn:Ei; [|discriminate].
     inversion E; subst. apply all_pts_rings_out. apply lines_internal_prov. exact Ei.
   Qed.
 
@@ -277,7 +277,7 @@ Definition pt_ok (r : rect) (tv : tpt) : Prop :=
   match snd tv with
   | SV _ => within r 0 (fst tv)
   | SI _ => within r 1 (fst tv)
-  | SX _ => True                 (* stale ip2: nothing is known *)
+  | SX _ => False
   | SC _ => False
   end.
 
@@ -367,7 +367,7 @@ Section Order.
   Qed.
 
   Lemma lines_loop_ub fuel : forall i loc rs out,
-    ub (2 * i) rs -> lines_loop gsi r path fuel i loc rs = Ok out -> exists B, ub B out.
+    ub (2 * i) rs -> lines_loop gsi false r path fuel i loc rs = Ok out -> exists B, ub B out.
   Proof.
     induction fuel as [|f IH]; intros i loc rs out H E; cbn [lines_loop] in E; [discriminate|].
     destruct (i <=? highI path)%nat; [|inversion E; subst; eexists; exact H].
@@ -383,9 +383,10 @@ Section Order.
     { eapply IH; [|exact E]. eapply add_ub; [exact H1| |]; cbn [snd pos]; lia. }
     destruct (negb (is_inside loc)).
     - destruct (get_intersection_g gsi r pp pi loc default_pt) as [[ok2 lx2] ip2].
+      destruct ok2; [|eapply IH; eassumption].
       eapply IH; [|exact E].
       apply (add_ub (2 * S j) (2 * S j)); [apply (add_ub (2 * S j) (2 * S j)); [exact H1| |]| |];
-        try destruct ok2; cbn [snd pos]; lia.
+        cbn [snd pos]; lia.
     - eapply IH; [|exact E]. eapply add_ub; [exact H1| |]; cbn [snd pos]; lia.
   Qed.
 
@@ -395,7 +396,7 @@ Section Order.
     apply IH. eapply add_ub; [exact H| |]; cbn [snd pos]; lia.
   Qed.
 
-  Lemma lines_internal_ub out : lines_internal gsi r path = Ok out -> exists B, ub B out.
+  Lemma lines_internal_ub out : lines_internal gsi false r path = Ok out -> exists B, ub B out.
   Proof.
     unfold lines_internal. intros E.
     assert (Hnil : ub 0 []) by (split; constructor).
@@ -403,7 +404,7 @@ Section Order.
     destruct (nth_error path 0) as [p0|]; [|discriminate].
     destruct (get_location r p0) as [b0 loc0].
     assert (Hstart : forall loc,
-              lines_loop gsi r path (main_fuel path) 1 loc (if is_inside loc then add (p0, SV 0) false [] else []) = Ok out ->
+              lines_loop gsi false r path (main_fuel path) 1 loc (if is_inside loc then add (p0, SV 0) false [] else []) = Ok out ->
               exists B, ub B out).
     { intros loc EL. eapply lines_loop_ub; [|exact EL].
       destruct (is_inside loc); [|eapply ub_mono; [|exact Hnil]; lia].
@@ -476,7 +477,7 @@ Proof.
   unfold rect_clip_lines_g, lines_one_t. intros E.
   destruct (rect_is_empty r); [inversion E; constructor|].
   destruct (negb (rect_intersects r (get_bounds path))); [inversion E; constructor|].
-  destruct (lines_internal gsi r path) as [rs|] eqn:Ei; [|discriminate].
+  destruct (lines_internal gsi false r path) as [rs|] eqn:Ei; [|discriminate].
   inversion E; subst. apply lines_internal_ub in Ei. destruct Ei as [B [Hs _]].
   unfold posl, rings_out in *. apply ss_map_concat_filter.
   change (concat (map (rev (A:=tpt)) (rev rs))) with (concat (map (rev (A:=tpt)) (@rev (list tpt) rs))).
@@ -594,7 +595,7 @@ Section Safety.
   Definition phi (i : nat) (loc : location) : nat := (2 * (length path - i) + (if al loc i then 0 else 1))%nat.
 
   Lemma lines_loop_ok fuel : forall i loc rs, (1 <= i <= length path)%nat -> (phi i loc < fuel)%nat ->
-    exists out, lines_loop gsi r path fuel i loc rs = Ok out.
+    exists out, lines_loop gsi false r path fuel i loc rs = Ok out.
   Proof.
     induction fuel as [|f IH]; intros i loc rs Hi Hf; [lia|]. cbn [lines_loop].
     destruct (i <=? highI path)%nat eqn:Ei; [|eexists; reflexivity].
@@ -617,7 +618,7 @@ Section Safety.
     destruct (is_inside l1); [apply IH; [lia|rewrite Hphi1; exact Hlow]|].
     destruct (negb (is_inside loc)).
     - destruct (get_intersection_g gsi r pp pi loc default_pt) as [[ok2 lx2] ip2].
-      apply IH; [lia|rewrite Hphi1; exact Hlow].
+      destruct ok2; apply IH; try lia; rewrite Hphi1; exact Hlow.
     - apply IH; [lia|rewrite Hphi1; exact Hlow].
   Qed.
 
@@ -632,7 +633,7 @@ Section Safety.
   Qed.
 End Safety.
 
-Theorem lines_internal_no_error gsi r path : exists rs, lines_internal gsi r path = Ok rs.
+Theorem lines_internal_no_error gsi r path : exists rs, lines_internal gsi false r path = Ok rs.
 Proof.
   unfold lines_internal.
   destruct (rect_is_empty r || (length path <? 2)%nat) eqn:Ee; [eexists; reflexivity|].
@@ -640,7 +641,7 @@ Proof.
   assert (Hn : (1 <= length path)%nat) by lia.
   destruct (nth_in path Hn 0%nat) as [p0 Ep0]; [lia|]. rewrite Ep0.
   destruct (get_location r p0) as [b0 loc0].
-  assert (Hstart : forall loc rs, exists out, lines_loop gsi r path (main_fuel path) 1 loc rs = Ok out).
+  assert (Hstart : forall loc rs, exists out, lines_loop gsi false r path (main_fuel path) 1 loc rs = Ok out).
   { intros loc rs. apply lines_loop_ok; [exact Hn|lia|]. unfold phi, main_fuel. destruct (al r path loc 1); lia. }
   destruct b0; cbn [negb]; [apply Hstart|].
   destruct (skip_boundary_ok r path Hn (inner_fuel path) 1%nat Inside) as [i [prev [E Hb]]]; [unfold inner_fuel; lia|lia|].
@@ -739,7 +740,7 @@ Section Identity.
   Qed.
 
   Lemma lines_loop_all rs :
-    lines_loop gsi r path (main_fuel path) 1 Inside rs = Ok (add_all 1 (skipn 1 path) rs).
+    lines_loop gsi false r path (main_fuel path) 1 Inside rs = Ok (add_all 1 (skipn 1 path) rs).
   Proof.
     unfold main_fuel. cbn [Nat.add Nat.mul]. rewrite Nat.add_succ_r. cbn [lines_loop].
     replace (1 <=? highI path)%nat with true by (symmetry; apply le_highI; lia).
@@ -749,7 +750,7 @@ Section Identity.
   Qed.
 
   Lemma lines_internal_all : rect_is_empty r = false ->
-    lines_internal gsi r path = Ok (add_all 0 path []).
+    lines_internal gsi false r path = Ok (add_all 0 path []).
   Proof.
     intros He. unfold lines_internal. rewrite He.
     replace (length path <? 2)%nat with false by (symmetry; apply Nat.ltb_ge; lia). cbn [orb].
@@ -850,7 +851,7 @@ Lemma lines_provenance_pointwise gsi r path out piece v s :
   match s with
   | SV i => nth_error path i = Some v /\ in_rect r v
   | SI i => exists a b, seg_at path i a b /\ (gi_result gsi r b a v \/ gi_result gsi r a b v)
-  | SX i => exists a b, seg_at path i a b /\ exists loc l', get_intersection_g gsi r a b loc default_pt = (false, l', v)
+  | SX _ => False
   | SC _ => False
   end.
 Proof.
@@ -860,7 +861,7 @@ Qed.
 
 Lemma lines_inside_pointwise gsi r path out piece v s :
   gsi_sound gsi r -> rect_clip_lines_g gsi r path = Ok out -> In piece out -> In (v, s) piece ->
-  match s with SV _ => within r 0 v | SI _ => within r 1 v | SX _ => True | SC _ => False end.
+  match s with SV _ => within r 0 v | SI _ => within r 1 v | SX _ => False | SC _ => False end.
 Proof.
   intros Hs E Hp Hv. apply (lines_inside_partial _ _ _ _ Hs) in E. unfold all_pts in E. rewrite Forall_forall in E.
   specialize (E piece Hp). rewrite Forall_forall in E. exact (E (v, s) Hv).
@@ -885,4 +886,14 @@ Corollary rect_clip_lines_total r p : exists out, rect_clip_lines_t r p = Ok out
 Proof.
   destruct (lines_no_error get_segment_intersection r p) as [out E]. exists out. split; [exact E|].
   unfold rect_clip_lines. fold (rect_clip_lines_t r p) in E. rewrite E. reflexivity.
+Qed.
+
+(* containment on the untagged output *)
+Lemma lines_inside_untagged gsi r path out piece v :
+  gsi_sound gsi r -> rect_clip_lines_g gsi r path = Ok out -> In piece (untag out) -> In v piece -> within r 1 v.
+Proof.
+  intros Hs E Hp Hv. unfold untag in Hp. apply in_map_iff in Hp. destruct Hp as [tp [<- Htp]].
+  apply in_map_iff in Hv. destruct Hv as [[v' s] [<- Hv]]. cbn [fst].
+  pose proof (lines_inside_pointwise gsi r path out tp v' s Hs E Htp Hv) as H.
+  destruct s; try contradiction; [eapply within_mono; [|exact H]; lia|exact H].
 Qed.
